@@ -456,3 +456,88 @@ fn c05_o4b_majority_threshold_510() {
     std::mem::forget(q);
     std::mem::forget(s);
 }
+
+fn count_of(q: &PutQuery, code: i32) -> usize {
+    let mut i = 0;
+    let mut n = 0;
+    while i < 4 {
+        if i < q.errors.len() && q.errors[i].1.code == code {
+            n += q.errors[i].0;
+        }
+        i += 1;
+    }
+    n
+}
+
+fn tally_step(pre: usize) {
+    let mut q = PutQuery::new(request_of(3), None);
+    let codes: [i32; 3] = kani::any();
+    let counts: [usize; 3] = kani::any();
+    kani::assume(codes[0] != codes[1] && codes[0] != codes[2] && codes[1] != codes[2]);
+    kani::assume(counts[0] >= counts[1] && counts[1] >= counts[2] && counts[2] >= 1 && counts[0] < 1000);
+    let mut i = 0;
+    while i < 3 {
+        if i < pre {
+            q.errors.push((counts[i], ErrorSpecific { code: codes[i], description: String::new() }));
+        }
+        i += 1;
+    }
+    let code: i32 = kani::any();
+    let before = [count_of(&q, codes[0]), count_of(&q, codes[1]), count_of(&q, codes[2]), count_of(&q, code)];
+    q.error(ErrorSpecific { code, description: String::new() });
+    let n = q.errors.len();
+    let known = (pre > 0 && code == codes[0]) || (pre > 1 && code == codes[1]) || (pre > 2 && code == codes[2]);
+    assert!(n == if known { pre } else { pre + 1 }, "C08.O1e one tally entry per distinct error code");
+    assert!(count_of(&q, code) == before[3] + 1, "C08.O1e the reply's code is counted once");
+    let mut i = 0;
+    while i < 3 {
+        if i < pre && codes[i] != code {
+            assert!(count_of(&q, codes[i]) == before[i], "C08.O1e other codes' tallies unchanged");
+        }
+        i += 1;
+    }
+    // order invariant: highest count first (most_common_error reads the head)
+    let mut i = 1;
+    while i < 4 {
+        if i < n {
+            assert!(q.errors[i - 1].0 >= q.errors[i].0, "C08.O1e tallies stay ordered by count, highest first");
+        }
+        i += 1;
+    }
+    kani::cover!(known && pre > 1 && q.errors[0].1.code == code && code != codes[0]);
+    kani::cover!(!known);
+    kani::cover!(pre < 2 || (known && code == codes[1] && q.errors[1].1.code == code));
+    std::mem::forget(q);
+}
+
+//@ ob: C08.O1e
+//@ tier: quick
+//@ cap: 900
+//@ standins: tracing
+//@ also: C05 C17
+//@ desc: error tally step (inductive): from any tally of 2 distinct error codes ordered by count, one more error reply with any i32 code leaves one entry per code, counts exactly that reply, keeps the other counts, keeps the order highest-count-first (most_common_error reads the head) and never panics -- including a later-seen code overtaking the head
+//@ bounds: 2 pre-existing tallies with symbolic distinct i32 codes and symbolic counts (ordered, < 1000); 1 symbolic reply; unwind 6
+//@ inv: errors has one entry per code, ordered by count descending
+//@ stubs: none
+//@ functions: PutQuery::error
+#[kani::proof]
+#[kani::unwind(6)]
+fn c08_o1e_error_tally_step() {
+    tally_step(2);
+}
+
+//@ ob: C08.O1f
+//@ tier: thorough
+//@ cap: 1800
+//@ standins: tracing
+//@ also: C05 C17
+//@ desc: error tally step from a tally of 3 distinct codes (the new reply's entry may bubble past two entries)
+//@ bounds: 3 pre-existing tallies, as C08.O1e; unwind 7
+//@ inv: as C08.O1e
+//@ stubs: none
+//@ functions: PutQuery::error
+#[kani::proof]
+#[kani::unwind(7)]
+fn c08_o1f_error_tally_step3() {
+    tally_step(3);
+}
